@@ -341,7 +341,8 @@ def run(ctx):
 
         def construct(self, ev, cls, args, kwargs):
             if cls is hdr:
-                h = Abs(hdr, label="H%d" % len(self.made), _sets=[])
+                h = Abs(hdr, label="H%d" % len(self.made), _sets=[],
+                        _datatype={}, _data={})
                 self.made.append(h)
                 return h
             return super().construct(ev, cls, args, kwargs)
@@ -354,13 +355,16 @@ def run(ctx):
 
         def before_inline(self, ev, func, args, kwargs):
             if func.name == "get_datatype":
-                return "Z"
+                return DECLARED.get(args[1], "Z")
             return NotImplemented
+    # yy is a character tag: the default datatype of its value would be Z
+    DECLARED = {"VN": "Z", "xx": "i", "yy": "A"}
     ctx.instance(R)
     fa = Abs(FA, label="fa", datatype="i", _datatype="i", _data=[1, 2])
     fa.attrs["__iter__"] = None
     h = Abs(hdr, label="header", vlevel=1,
-            _data={"VN": "1.0", "xx": fa, "yy": "v"}, _datatype={})
+            _data={"VN": "1.0", "xx": fa, "yy": "v"},
+            _datatype={"yy": "A"})
     sh = SH(repo)
 
     class SH2(SH):
@@ -372,14 +376,37 @@ def run(ctx):
         flat = [(s[1], s[2]) for t in got for s in t if s[0] == "set"]
         ok = out[0] == "return" and flat == want_sets and \
             list(out[1]) == sh.made
+        # each emitted line knows the datatype the header declares for its
+        # tag (recorded before the value is set, by set_datatype or in the
+        # line's own table): set() alone would take the default datatype of
+        # the value (a character tag would be written as a string)
+        typed = []
+        for x in sh.made:
+            dts = dict(x.attrs.get("_datatype") or {})
+            for s_ in x.attrs["_sets"]:
+                if s_[0] == "set_datatype" and len(s_) == 3:
+                    dts[s_[1]] = s_[2]
+                elif s_[0] == "set":
+                    typed.append((s_[1], dts.get(s_[1])))
+        ok_dt = all(dt == DECLARED[t] for t, dt in typed)
     except Unsupported as e:
         ok = False
+        ok_dt = True
+        typed = []
         flat = str(e)
     ctx.oblige(ok)
     if not ok:
         ctx.violation(R, f_sp.short, "tags=VN,xx(2 values),yy",
                       "split header lines carry %r, expected one line per "
                       "value: VN, xx=1, xx=2, yy" % (flat,))
+    ctx.instance(R)
+    ctx.oblige(ok_dt)
+    if not ok_dt:
+        ctx.violation(R, f_sp.short, "datatypes of VN:Z,xx:i,yy:A",
+                      "the one-tag H lines are given the datatypes %r: a tag "
+                      "whose declared datatype is not the default of its "
+                      "value (yy:A:v) is written with another datatype" %
+                      (typed,))
     f_gs = ctx.anchor("Gfa.__str__", gfacls.find_method("__str__"))
     ctx.instance(R)
     g = Abs(gfacls, label="gfa", lines=["l1", "l2", "l3"])
